@@ -20,6 +20,9 @@ FORBIDDEN = {"WAIT-TURN-W", "CV-WAIT", "CV-WAIT-T", "SLEEP", "JOIN"}
 def callee_instances(facts, f, bb):
     b = f.blocks[bb]
     iid = b.get("inst")
+    if iid is None and b.get("eff_site") is not None:
+        si, sb = b["eff_site"]
+        return [to for _, kind, to, e in facts.inst_callees(facts.instances[si], sb) if to is not None]
     inst = facts.instances[iid] if iid is not None else getattr(f, "root_inst", None)
     if inst is None:
         return []
